@@ -21,6 +21,18 @@ pub fn interp_livelock(src: &source::SharedLog, f: model::Format) -> engine::Che
             format!("the growth policy answered grow_to({}) = {}: the harness refused instead of passing it on", cur, ans),
         ));
     }
+    if let Some(cur) = src.borrow().stalled {
+        return Err(engine::Failure::new(
+            format!("{}/policy-asked-again-without-adopting-the-answer", light::fmt_name(f)),
+            format!("grow_to({}) was called 10 000 times in a row although every answer was a larger size: the reader does not adopt the size it is given (the harness refused in the end)", cur),
+        ));
+    }
+    if let Some(cur) = src.borrow().runaway {
+        return Err(engine::Failure::new(
+            format!("{}/growth-request-although-buffer-exceeds-input", light::fmt_name(f)),
+            format!("the policy was asked grow_to({}) although the buffer is already larger than the whole input: no record can need that (the harness refused)", cur),
+        ));
+    }
     if src.borrow().budget_exceeded {
         return Err(engine::Failure::new(
             format!("{}/livelock-step-budget", light::fmt_name(f)),
